@@ -178,11 +178,26 @@ type World struct {
 	// own-channels arm
 	ownChans  []*uChan
 	chanPeers []*simPeer                        // remote endpoints of the node's own channels
+	nodePeers []*simPeer                        // peers whose identity is a universe node's key (created on demand)
 	waiters   map[[33]byte][]chan<- lnpeer.Peer // NotifyWhenOnline requests not served yet
 	offline   map[[33]byte][]chan struct{}      // NotifyWhenOffline channels not closed yet
 }
 
 // chanPeerByKey returns the channel peer with that node key (nil if none).
+// nodePeer returns (creating it on first use) the peer whose identity key is
+// universe node n's key: no gossip syncer, like any peer that does not speak
+// gossip queries.
+func (w *World) nodePeer(n *uNode) *simPeer {
+	for _, p := range w.nodePeers {
+		if p.pub == n.pub {
+			return p
+		}
+	}
+	p := &simPeer{w: w, name: fmt.Sprintf("N%d", n.idx), priv: n.priv, pub: n.pub, quit: make(chan struct{})}
+	w.nodePeers = append(w.nodePeers, p)
+	return p
+}
+
 func (w *World) chanPeerByKey(pub [33]byte) *simPeer {
 	for _, p := range w.chanPeers {
 		if p.pub == pub {
@@ -627,6 +642,9 @@ func (w *World) Stop() {
 		close(p.quit)
 	}
 	for _, p := range w.chanPeers {
+		close(p.quit)
+	}
+	for _, p := range w.nodePeers {
 		close(p.quit)
 	}
 	if w.gsp != nil {
